@@ -445,58 +445,8 @@ func runC19(r *Report, tier string) {
 	}
 	r.floorSoft("R19.2", nd, 10, "mode Unmarshal sites on decode paths")
 
-	// R19.3
-	tt := &taint{P: P, memo: map[*ssa.Parameter]string{}, busy: map[*ssa.Parameter]bool{}}
-	n3 := 0
-	for _, fn := range P.methodsNamed("UnmarshalCBOR", "") {
-		if len(fn.Params) != 2 || !isByteSlice(fn.Params[1].Type()) {
-			continue
-		}
-		if isNamed(deref(fn.Signature.Recv().Type()), cosePath, "Key") {
-			continue // outside the property's quantifier (documented)
-		}
-		n3++
-		o := r.ob("R19.3", shortFn(fn)+":input", fn, nil, "the input buffer does not escape")
-		why := tt.paramEscapes(fn.Params[1])
-		o.check(why == "", "input only indexed/measured/compared/copied", why)
-	}
-	r.floor("R19.3", n3, 10, "UnmarshalCBOR methods")
-	r.paths += tt.visited
-	// RawMessage values handed out by the mode are copies, but the wire struct
-	// slots must be RawMessage / the bstr-nil type (not aliases into data)
-	for _, w := range P.wireStructs() {
-		st := w.Underlying().(*types.Struct)
-		for i := 0; i < st.NumFields(); i++ {
-			f := st.Field(i)
-			if f.Name() == "_" {
-				continue
-			}
-			o := r.ob("R19.3", w.Obj().Name()+"."+f.Name()+":slot-type", nil, nil, "wire-struct slot type is one the mode fills with a copy")
-			ts := shortType(f.Type())
-			ok := ts == "cbor.RawMessage" || ts == "[]cbor.RawMessage" || ts == shortType(P.bstrNilType())
-			o.check(ok, ts, "slot type "+ts+" is not RawMessage / []RawMessage / the bstr-nil type")
-		}
-	}
-
-	// R19.4
-	n4 := 0
-	for _, fn := range P.methodsNamed("MarshalCBOR", "") {
-		for _, x := range P.factsOf(fn).exits {
-			if x.kind == exitFailure {
-				continue
-			}
-			n4++
-			o := r.ob("R19.4", shortFn(fn)+":exit:"+exitID(P, fn, x), fn, x.ret, "returned bytes are fresh memory")
-			var bad []string
-			for _, l := range P.effects.originsOf(x.results[0], nil, 0) {
-				if l.Kind != "fresh" {
-					bad = append(bad, l.String())
-				}
-			}
-			o.check(len(bad) == 0, "origins: fresh ("+truncate(x.results[0].String(), 80)+")", "returned bytes may alias "+strings.Join(bad, ", "))
-		}
-	}
-	r.floor("R19.4", n4, 8, "MarshalCBOR success exits")
+	checkInputNotRetained(r, "R19.3")
+	checkEncoderOutputFresh(r, "R19.4", "")
 }
 
 func truncate(s string, n int) string {
@@ -615,5 +565,77 @@ func mutC19() []mutant {
 			Old: "func (discardedCBORMessage) UnmarshalCBOR(data []byte) error {\n\treturn nil", New: "func (discardedCBORMessage) UnmarshalCBOR(data []byte) error {\n\tsignaturePrefix = data\n\treturn nil"},
 		{Name: "UnprotectedHeader.MarshalCBOR returns a shared empty-map literal", File: "headers.go", Rule: "R19.4",
 			Old: "\tif len(h) == 0 {\n\t\treturn []byte{0xa0}, nil\n\t}", New: "\tif len(h) == 0 {\n\t\treturn signaturePrefix, nil\n\t}"},
+	}
+}
+
+// checkInputNotRetained (R19.3; shared with C02/C03: the protected bytes a
+// verifier later reads are the decoder's own copy of the wire bytes, not a
+// window into the caller's buffer).
+func checkInputNotRetained(r *Report, rule string) {
+	P := r.P
+	// R19.3
+	tt := &taint{P: P, memo: map[*ssa.Parameter]string{}, busy: map[*ssa.Parameter]bool{}}
+	n3 := 0
+	for _, fn := range P.methodsNamed("UnmarshalCBOR", "") {
+		if len(fn.Params) != 2 || !isByteSlice(fn.Params[1].Type()) {
+			continue
+		}
+		if isNamed(deref(fn.Signature.Recv().Type()), cosePath, "Key") {
+			continue // outside the property's quantifier (documented)
+		}
+		n3++
+		o := r.ob(rule, shortFn(fn)+":input", fn, nil, "the input buffer does not escape")
+		why := tt.paramEscapes(fn.Params[1])
+		o.check(why == "", "input only indexed/measured/compared/copied", why)
+	}
+	r.floor(rule, n3, 10, "UnmarshalCBOR methods")
+	r.paths += tt.visited
+	// RawMessage values handed out by the mode are copies, but the wire struct
+	// slots must be RawMessage / the bstr-nil type (not aliases into data)
+	for _, w := range P.wireStructs() {
+		st := w.Underlying().(*types.Struct)
+		for i := 0; i < st.NumFields(); i++ {
+			f := st.Field(i)
+			if f.Name() == "_" {
+				continue
+			}
+			o := r.ob(rule, w.Obj().Name()+"."+f.Name()+":slot-type", nil, nil, "wire-struct slot type is one the mode fills with a copy")
+			ts := shortType(f.Type())
+			ok := ts == "cbor.RawMessage" || ts == "[]cbor.RawMessage" || ts == shortType(P.bstrNilType())
+			o.check(ok, ts, "slot type "+ts+" is not RawMessage / []RawMessage / the bstr-nil type")
+		}
+	}
+
+}
+
+// checkEncoderOutputFresh (R19.4; shared with C14 for the COSE_Key encoder):
+// only == "" covers every MarshalCBOR method, otherwise the named type's.
+func checkEncoderOutputFresh(r *Report, rule, only string) {
+	P := r.P
+	// R19.4
+	n4 := 0
+	for _, fn := range P.methodsNamed("MarshalCBOR", "") {
+		if only != "" && !isNamed(deref(fn.Signature.Recv().Type()), cosePath, only) {
+			continue
+		}
+		for _, x := range P.factsOf(fn).exits {
+			if x.kind == exitFailure {
+				continue
+			}
+			n4++
+			o := r.ob(rule, shortFn(fn)+":exit:"+exitID(P, fn, x), fn, x.ret, "returned bytes are fresh memory")
+			var bad []string
+			for _, l := range P.effects.originsOf(x.results[0], nil, 0) {
+				if l.Kind != "fresh" {
+					bad = append(bad, l.String())
+				}
+			}
+			o.check(len(bad) == 0, "origins: fresh ("+truncate(x.results[0].String(), 80)+")", "returned bytes may alias "+strings.Join(bad, ", "))
+		}
+	}
+	if only == "" {
+		r.floor(rule, n4, 8, "MarshalCBOR success exits")
+	} else {
+		r.floor(rule, n4, 1, "MarshalCBOR success exits of "+only)
 	}
 }
